@@ -7,7 +7,7 @@ import fields as F
 import hist as H
 import props.cfgprops as P
 import props.c05 as c05
-from core import Result, stable
+from core import Result, stable, guard
 
 RULE = ("item / key / value fields of every scalar kind x histories of 5-14 list operations (append, insert, extend, index and slice "
         "assignment incl. extended slices, +=, +, *, *=, copy, pop, remove, delete, sort, reverse, clear, queries) and dict operations "
@@ -519,8 +519,8 @@ def dict_stream(ctx, res, n):
 
 def run(ctx, n_quick=400, n_thorough=20000):
     res = Result()
-    list_stream(ctx, res, ctx.n(n_quick, n_thorough))
-    dict_stream(ctx, res, ctx.n(n_quick, n_thorough))
+    guard(res, "C17", list_stream, ctx, res, ctx.n(n_quick, n_thorough))
+    guard(res, "C17", dict_stream, ctx, res, ctx.n(n_quick, n_thorough))
     return res
 
 
